@@ -348,7 +348,22 @@ func c10Replay(i int, raw json.RawMessage, seed int) Result {
 		all = unionInts(all, s)
 	}
 	algo := algoOf(q.Ver)
-	nt := fmt.Sprintf("%s|%s|res=%v", q.Ver, m.shapeKey(), want)
+	nt := fmt.Sprintf("%s|%s|rej=%v|res=%v", q.Ver, m.shapeKey(), q.Rejected, want)
+	// Room.tla only lets honest servers send what the rules allow on the state they resolved: every event of the
+	// room must therefore be allowed by its own auth events (this binds Room!Send's guard to the real Allowed)
+	for _, e := range q.Events {
+		if e.ID <= 2 || len(q.Rejected) > 0 {
+			continue
+		}
+		prov, err := gmsl.NewAuthEvents(m.list(e.Auth))
+		if err != nil {
+			panic(err)
+		}
+		if err := gmsl.Allowed(m.pdus[e.ID], prov, identityQuerier); err != nil {
+			return Result{OK: false, NT: nt, Key: fmt.Sprintf("C10/room-event-not-allowed/%s", e.Type), Want: true, Got: false,
+				What: fmt.Sprintf("Room.tla sends event %d (allowed by the specification's rules on auth events %v) but the real Allowed refuses it: %v; room (version %s): %s", e.ID, e.Auth, err, q.Ver, m.describe())}
+		}
+	}
 	check := func(entry string, auth []int) *Result {
 		var got []gmsl.PDU
 		switch entry {
